@@ -103,3 +103,51 @@ Example C14_example :
   = [(Ok tt, []); (Ok tt, [16; 15; 0; 4; 77; 81; 84; 84; 5; 2; 0; 3; 0; 0; 2; 97; 97]); (Ok tt, []); (Ok tt, []);
      (Ok tt, [192; 0]); (Ok tt, []); (Ok tt, []); (Err EConnectionClosed, [])].
 Proof. vm_compute. reflexivity. Qed.
+
+(* ---- run level (EngineProofs/TimersRun*.v, TimersRunPing.v): statements about EVERY state reachable from init by any
+   event history (hypotheses: comps_ok, ok_cfg, Forall ok_event); C14_instance_*: the concrete engine.
+   C14_run_ka_connected: while Connected with negotiated keep-alive K > 0 a next-ping time exists and a pending ping
+     deadline t satisfies t + K*1000 <= next_ping + min(ping timeout, K*500) (it is always due before the next ping);
+     with K = 0 there is neither, and the keep-alive part of every service call is the identity (no PINGREQ, no failure);
+   C14_run_ka_unconnected: no deadline of either kind in Disconnected / PendingConnack (none outlives its connection);
+   C14_run_ping_deadline / C14_arm_ghost_spec: a pending deadline equals now0 + min(ping timeout, K*500) where now0 (ghost
+     arm_ghost, by recursion over the history) is the time of the service call before which no deadline was pending and
+     since which one has been pending without interruption (no PINGRESP processed since: that clears it);
+   C14_run_timely_no_timeout: if every service call made while the PINGREQ sent at now0 is unanswered happens before
+     now0 + min(ping timeout, K*500) -- i.e. the peer answers before the deadline -- no service call reports the
+     keep-alive failure.  C14_run_example_*: vm_compute witnesses. ---- *)
+From GM Require Import EngineProofs.WFDefs EngineProofs.TimersRunData EngineProofs.TimersRun EngineProofs.TimersRunThms EngineProofs.TimersRunPing EngineProofs.TimersRunInstance EngineProofs.TimersRunWitness.
+
+Theorem C14_run_ka_connected : forall (enc : Type) (enc_reset : version -> packet -> resolution -> outcome enc) (enc_call : enc -> N -> N -> outcome (bytes * enc)) (enc_done : enc -> bool) (dec : Type) (dec_init : dec) (dec_feed : version -> N -> dec -> bytes -> dec * list packet * outcome unit) (ores : Type) (ores_reset : ores -> N -> ores) (ores_resolve : ores -> option N -> bytes -> outcome (ores * resolution)) (ires : Type) (ires_reset : ires -> ires) (ires_resolve : ires -> option N -> bytes -> outcome (ires * bytes)) (v_out : option settings -> connect_opts -> resolution -> packet -> outcome unit) (v_in : option settings -> packet -> outcome unit) (cfg : config) (HC : comps_ok enc enc_reset enc_call dec dec_init dec_feed ores ores_reset ores_resolve ires ires_reset ires_resolve v_out v_in), ok_cfg cfg -> forall (o0 : ores) (i0 : ires) (h : list event), @ores_inv enc enc_reset enc_call dec dec_init dec_feed ores ores_reset ores_resolve ires ires_reset ires_resolve v_out v_in HC o0 -> @ires_inv enc enc_reset enc_call dec dec_init dec_feed ores ores_reset ores_resolve ires ires_reset ires_resolve v_out v_in HC i0 -> @Forall event ok_event h -> @s_st enc dec ores ires (@fst (state enc dec ores ires) (list output) (run enc enc_reset enc_call enc_done dec dec_init dec_feed ores ores_reset ores_resolve ires ires_reset ires_resolve v_out v_in cfg (init enc dec dec_init ores ires o0 i0) h)) = Connected -> exists st : settings, @s_settings enc dec ores ires (@fst (state enc dec ores ires) (list output) (run enc enc_reset enc_call enc_done dec dec_init dec_feed ores ores_reset ores_resolve ires ires_reset ires_resolve v_out v_in cfg (init enc dec dec_init ores ires o0 i0) h)) = @Some settings st /\ (0 < st_server_keep_alive st -> exists n : N, @s_next_ping enc dec ores ires (@fst (state enc dec ores ires) (list output) (run enc enc_reset enc_call enc_done dec dec_init dec_feed ores ores_reset ores_resolve ires ires_reset ires_resolve v_out v_in cfg (init enc dec dec_init ores ires o0 i0) h)) = @Some N n /\ (forall t : N, @s_ping_to enc dec ores ires (@fst (state enc dec ores ires) (list output) (run enc enc_reset enc_call enc_done dec dec_init dec_feed ores ores_reset ores_resolve ires ires_reset ires_resolve v_out v_in cfg (init enc dec dec_init ores ires o0 i0) h)) = @Some N t -> t + st_server_keep_alive st * 1000 <= n + ka_final cfg (st_server_keep_alive st))) /\ (st_server_keep_alive st = 0 -> @s_next_ping enc dec ores ires (@fst (state enc dec ores ires) (list output) (run enc enc_reset enc_call enc_done dec dec_init dec_feed ores ores_reset ores_resolve ires ires_reset ires_resolve v_out v_in cfg (init enc dec dec_init ores ires o0 i0) h)) = @None N /\ @s_ping_to enc dec ores ires (@fst (state enc dec ores ires) (list output) (run enc enc_reset enc_call enc_done dec dec_init dec_feed ores ores_reset ores_resolve ires ires_reset ires_resolve v_out v_in cfg (init enc dec dec_init ores ires o0 i0) h)) = @None N /\ (forall now : N, service_keep_alive enc dec ores ires cfg (@fst (state enc dec ores ires) (list output) (run enc enc_reset enc_call enc_done dec dec_init dec_feed ores ores_reset ores_resolve ires ires_reset ires_resolve v_out v_in cfg (init enc dec dec_init ores ires o0 i0) h)) now = @Ok (state enc dec ores ires) (@fst (state enc dec ores ires) (list output) (run enc enc_reset enc_call enc_done dec dec_init dec_feed ores ores_reset ores_resolve ires ires_reset ires_resolve v_out v_in cfg (init enc dec dec_init ores ires o0 i0) h)))).
+Proof. exact @run_ka_connected. Qed.
+
+Theorem C14_run_ka_unconnected : forall (enc : Type) (enc_reset : version -> packet -> resolution -> outcome enc) (enc_call : enc -> N -> N -> outcome (bytes * enc)) (enc_done : enc -> bool) (dec : Type) (dec_init : dec) (dec_feed : version -> N -> dec -> bytes -> dec * list packet * outcome unit) (ores : Type) (ores_reset : ores -> N -> ores) (ores_resolve : ores -> option N -> bytes -> outcome (ores * resolution)) (ires : Type) (ires_reset : ires -> ires) (ires_resolve : ires -> option N -> bytes -> outcome (ires * bytes)) (v_out : option settings -> connect_opts -> resolution -> packet -> outcome unit) (v_in : option settings -> packet -> outcome unit) (cfg : config) (HC : comps_ok enc enc_reset enc_call dec dec_init dec_feed ores ores_reset ores_resolve ires ires_reset ires_resolve v_out v_in), ok_cfg cfg -> forall (o0 : ores) (i0 : ires) (h : list event), @ores_inv enc enc_reset enc_call dec dec_init dec_feed ores ores_reset ores_resolve ires ires_reset ires_resolve v_out v_in HC o0 -> @ires_inv enc enc_reset enc_call dec dec_init dec_feed ores ores_reset ores_resolve ires ires_reset ires_resolve v_out v_in HC i0 -> @Forall event ok_event h -> @s_st enc dec ores ires (@fst (state enc dec ores ires) (list output) (run enc enc_reset enc_call enc_done dec dec_init dec_feed ores ores_reset ores_resolve ires ires_reset ires_resolve v_out v_in cfg (init enc dec dec_init ores ires o0 i0) h)) = Disconnected \/ @s_st enc dec ores ires (@fst (state enc dec ores ires) (list output) (run enc enc_reset enc_call enc_done dec dec_init dec_feed ores ores_reset ores_resolve ires ires_reset ires_resolve v_out v_in cfg (init enc dec dec_init ores ires o0 i0) h)) = PendingConnack -> @s_next_ping enc dec ores ires (@fst (state enc dec ores ires) (list output) (run enc enc_reset enc_call enc_done dec dec_init dec_feed ores ores_reset ores_resolve ires ires_reset ires_resolve v_out v_in cfg (init enc dec dec_init ores ires o0 i0) h)) = @None N /\ @s_ping_to enc dec ores ires (@fst (state enc dec ores ires) (list output) (run enc enc_reset enc_call enc_done dec dec_init dec_feed ores ores_reset ores_resolve ires ires_reset ires_resolve v_out v_in cfg (init enc dec dec_init ores ires o0 i0) h)) = @None N.
+Proof. exact @run_ka_unconnected. Qed.
+
+Theorem C14_run_ping_deadline : forall (enc : Type) (enc_reset : version -> packet -> resolution -> outcome enc) (enc_call : enc -> N -> N -> outcome (bytes * enc)) (enc_done : enc -> bool) (dec : Type) (dec_init : dec) (dec_feed : version -> N -> dec -> bytes -> dec * list packet * outcome unit) (ores : Type) (ores_reset : ores -> N -> ores) (ores_resolve : ores -> option N -> bytes -> outcome (ores * resolution)) (ires : Type) (ires_reset : ires -> ires) (ires_resolve : ires -> option N -> bytes -> outcome (ires * bytes)) (v_out : option settings -> connect_opts -> resolution -> packet -> outcome unit) (v_in : option settings -> packet -> outcome unit) (cfg : config) (HC : comps_ok enc enc_reset enc_call dec dec_init dec_feed ores ores_reset ores_resolve ires ires_reset ires_resolve v_out v_in), ok_cfg cfg -> forall (o0 : ores) (i0 : ires) (h : list event), @ores_inv enc enc_reset enc_call dec dec_init dec_feed ores ores_reset ores_resolve ires ires_reset ires_resolve v_out v_in HC o0 -> @ires_inv enc enc_reset enc_call dec dec_init dec_feed ores ores_reset ores_resolve ires ires_reset ires_resolve v_out v_in HC i0 -> @Forall event ok_event h -> forall t : N, @s_ping_to enc dec ores ires (@fst (state enc dec ores ires) (list output) (run enc enc_reset enc_call enc_done dec dec_init dec_feed ores ores_reset ores_resolve ires ires_reset ires_resolve v_out v_in cfg (init enc dec dec_init ores ires o0 i0) h)) = @Some N t -> exists (now0 : N) (st : settings), arm_ghost enc enc_reset enc_call enc_done dec dec_init dec_feed ores ores_reset ores_resolve ires ires_reset ires_resolve v_out v_in cfg (init enc dec dec_init ores ires o0 i0) h (@None N) = @Some N now0 /\ @s_settings enc dec ores ires (@fst (state enc dec ores ires) (list output) (run enc enc_reset enc_call enc_done dec dec_init dec_feed ores ores_reset ores_resolve ires ires_reset ires_resolve v_out v_in cfg (init enc dec dec_init ores ires o0 i0) h)) = @Some settings st /\ t = now0 + N.min (cf_ping_timeout cfg) (st_server_keep_alive st * 500).
+Proof. exact @run_ping_deadline. Qed.
+
+Theorem C14_arm_ghost_spec : forall (enc : Type) (enc_reset : version -> packet -> resolution -> outcome enc) (enc_call : enc -> N -> N -> outcome (bytes * enc)) (enc_done : enc -> bool) (dec : Type) (dec_init : dec) (dec_feed : version -> N -> dec -> bytes -> dec * list packet * outcome unit) (ores : Type) (ores_reset : ores -> N -> ores) (ores_resolve : ores -> option N -> bytes -> outcome (ores * resolution)) (ires : Type) (ires_reset : ires -> ires) (ires_resolve : ires -> option N -> bytes -> outcome (ires * bytes)) (v_out : option settings -> connect_opts -> resolution -> packet -> outcome unit) (v_in : option settings -> packet -> outcome unit) (cfg : config) (h : list event) (s : state enc dec ores ires) (now0 : N), arm_ghost enc enc_reset enc_call enc_done dec dec_init dec_feed ores ores_reset ores_resolve ires ires_reset ires_resolve v_out v_in cfg s h (@None N) = @Some N now0 -> exists (h1 : list event) (cap fill : N) (h2 : list event), h = h1 ++ EvService now0 cap fill :: h2 /\ @s_ping_to enc dec ores ires (@fst (state enc dec ores ires) (list output) (run enc enc_reset enc_call enc_done dec dec_init dec_feed ores ores_reset ores_resolve ires ires_reset ires_resolve v_out v_in cfg s h1)) = @None N /\ (forall h2a h2b : list event, h2 = h2a ++ h2b -> @s_ping_to enc dec ores ires (@fst (state enc dec ores ires) (list output) (run enc enc_reset enc_call enc_done dec dec_init dec_feed ores ores_reset ores_resolve ires ires_reset ires_resolve v_out v_in cfg s (h1 ++ EvService now0 cap fill :: h2a))) <> @None N).
+Proof. exact @arm_ghost_spec. Qed.
+
+Theorem C14_run_timely_no_timeout : forall (enc : Type) (enc_reset : version -> packet -> resolution -> outcome enc) (enc_call : enc -> N -> N -> outcome (bytes * enc)) (enc_done : enc -> bool) (dec : Type) (dec_init : dec) (dec_feed : version -> N -> dec -> bytes -> dec * list packet * outcome unit) (ores : Type) (ores_reset : ores -> N -> ores) (ores_resolve : ores -> option N -> bytes -> outcome (ores * resolution)) (ires : Type) (ires_reset : ires -> ires) (ires_resolve : ires -> option N -> bytes -> outcome (ires * bytes)) (v_out : option settings -> connect_opts -> resolution -> packet -> outcome unit) (v_in : option settings -> packet -> outcome unit) (cfg : config) (HC : comps_ok enc enc_reset enc_call dec dec_init dec_feed ores ores_reset ores_resolve ires ires_reset ires_resolve v_out v_in), ok_cfg cfg -> forall (o0 : ores) (i0 : ires) (h : list event), @ores_inv enc enc_reset enc_call dec dec_init dec_feed ores ores_reset ores_resolve ires ires_reset ires_resolve v_out v_in HC o0 -> @ires_inv enc enc_reset enc_call dec dec_init dec_feed ores ores_reset ores_resolve ires ires_reset ires_resolve v_out v_in HC i0 -> @Forall event ok_event h -> timely enc enc_reset enc_call enc_done dec dec_init dec_feed ores ores_reset ores_resolve ires ires_reset ires_resolve v_out v_in cfg (init enc dec dec_init ores ires o0 i0) h (@None N) -> no_ka_timeout enc enc_reset enc_call enc_done dec dec_init dec_feed ores ores_reset ores_resolve ires ires_reset ires_resolve v_out v_in cfg (init enc dec dec_init ores ires o0 i0) h.
+Proof. exact @run_timely_no_timeout. Qed.
+
+Theorem C14_instance_ka_connected : forall cfg : config, ok_cfg cfg -> forall (k : resolver_kind) (h : list event), @Forall event ok_event h -> @s_st enc Framing.decoder ores Inbound.ires (@fst istate (list output) (i_run cfg (i_init cfg k) h)) = Connected -> exists st : settings, @s_settings enc Framing.decoder ores Inbound.ires (@fst istate (list output) (i_run cfg (i_init cfg k) h)) = @Some settings st /\ (0 < st_server_keep_alive st -> exists n : N, @s_next_ping enc Framing.decoder ores Inbound.ires (@fst istate (list output) (i_run cfg (i_init cfg k) h)) = @Some N n /\ (forall t : N, @s_ping_to enc Framing.decoder ores Inbound.ires (@fst istate (list output) (i_run cfg (i_init cfg k) h)) = @Some N t -> t + st_server_keep_alive st * 1000 <= n + ka_final cfg (st_server_keep_alive st))) /\ (st_server_keep_alive st = 0 -> @s_next_ping enc Framing.decoder ores Inbound.ires (@fst istate (list output) (i_run cfg (i_init cfg k) h)) = @None N /\ @s_ping_to enc Framing.decoder ores Inbound.ires (@fst istate (list output) (i_run cfg (i_init cfg k) h)) = @None N /\ (forall now : N, i_keep_alive cfg (@fst istate (list output) (i_run cfg (i_init cfg k) h)) now = @Ok istate (@fst istate (list output) (i_run cfg (i_init cfg k) h)))).
+Proof. exact @instance_run_ka_connected. Qed.
+
+Theorem C14_instance_ka_unconnected : forall cfg : config, ok_cfg cfg -> forall (k : resolver_kind) (h : list event), @Forall event ok_event h -> @s_st enc Framing.decoder ores Inbound.ires (@fst istate (list output) (i_run cfg (i_init cfg k) h)) = Disconnected \/ @s_st enc Framing.decoder ores Inbound.ires (@fst istate (list output) (i_run cfg (i_init cfg k) h)) = PendingConnack -> @s_next_ping enc Framing.decoder ores Inbound.ires (@fst istate (list output) (i_run cfg (i_init cfg k) h)) = @None N /\ @s_ping_to enc Framing.decoder ores Inbound.ires (@fst istate (list output) (i_run cfg (i_init cfg k) h)) = @None N.
+Proof. exact @instance_run_ka_unconnected. Qed.
+
+Theorem C14_instance_ping_deadline : forall cfg : config, ok_cfg cfg -> forall (k : resolver_kind) (h : list event), @Forall event ok_event h -> forall t : N, @s_ping_to enc Framing.decoder ores Inbound.ires (@fst istate (list output) (i_run cfg (i_init cfg k) h)) = @Some N t -> exists (now0 : N) (st : settings), i_arm_ghost cfg (i_init cfg k) h (@None N) = @Some N now0 /\ @s_settings enc Framing.decoder ores Inbound.ires (@fst istate (list output) (i_run cfg (i_init cfg k) h)) = @Some settings st /\ t = now0 + N.min (cf_ping_timeout cfg) (st_server_keep_alive st * 500).
+Proof. exact @instance_run_ping_deadline. Qed.
+
+Theorem C14_instance_timely_no_timeout : forall cfg : config, ok_cfg cfg -> forall (k : resolver_kind) (h : list event), @Forall event ok_event h -> i_timely cfg (i_init cfg k) h (@None N) -> i_no_ka_timeout cfg (i_init cfg k) h.
+Proof. exact @instance_run_timely_no_timeout. Qed.
+
+Theorem C14_run_example_ping : @Forall event ok_event t_hist5 /\ ok_cfg t_cfg3 /\ t_view (x_state t_cfg3 (x_connect_events x_connack_bytes)) = (Connected, [], [], [], [], @Some N 20000, @None N) /\ t_view (x_state t_cfg3 t_hist4) = (Connected, [], [], [], [(2, false, @None N, @Some N 20000, 0)], @Some N 40000, @Some N 30000) /\ i_arm_ghost t_cfg3 (x_init t_cfg3) t_hist4 (@None N) = @Some N 20000 /\ @map output (outcome unit) o_res (x_outs t_cfg3 t_hist5) = @repeat (outcome unit) (@Ok unit tt) 9 /\ @s_ping_to enc Framing.decoder ores Inbound.ires (x_state t_cfg3 t_hist5) = @None N /\ @map output (outcome unit) o_res (x_outs t_cfg3 (t_hist4 ++ [EvWriteComplete 20000; EvService 30000 4096 0])) = @repeat (outcome unit) (@Ok unit tt) 6 ++ [@Err unit EConnectionClosed] /\ t_view (x_state (x_cfg 0) (x_connect_events x_connack_bytes)) = (Connected, [], [], [], [], @None N, @None N).
+Proof. exact @t_ping. Qed.
+
+Theorem C14_run_example_timely : i_timely t_cfg3 (x_init t_cfg3) t_hist5 (@None N).
+Proof. exact @t_timely. Qed.
+
